@@ -244,7 +244,8 @@ PROBES = [
 PROBES[-1][2]["knots"][0]["body"][0][1][0]["start"] = [["t", "road "], ["e", ["turns_since", "k3"]], ["t", " river"]]
 
 
-def run_probes(ctx, exe):
+def collect_probes(exe):
+    """-> [(key, message, replay payload)] for every probe on which implementation and RefSem disagree"""
     progs = [(i, p[2]) for i, p in enumerate(PROBES)]
     res = refsem_compare(progs, exe, 2, 20, name="c01probe")
     found = []
@@ -253,10 +254,9 @@ def run_probes(ctx, exe):
         if st == "agree":
             continue
         src = ast.get("_src") or gen_ink.print_program(ast)
-        found.append(key)
-        ctx.violation(f"{key}: implementation and Ink rules disagree ({st}) on\n{src}rule: {rule}\n"
-                      f"first difference: {json.dumps(d, ensure_ascii=False)[:400]}",
-                      dict(kind="probe", key=key, ink=src, rule=rule, difference=d), key=key)
+        found.append((key, f"{key}: implementation and Ink rules disagree ({st}) on\n{src}rule: {rule}\n"
+                           f"first difference: {json.dumps(d, ensure_ascii=False)[:400]}",
+                      dict(kind="probe", key=key, ink=src, rule=rule, difference=d)))
     return found
 
 
@@ -313,7 +313,12 @@ def part_c(ctx, exe, progs, depth, budget):
                                   plain=r0["paths"][j] if j < len(r0["paths"]) else None,
                                   sliced=r1["paths"][j] if j < len(r1.get("paths", [])) else None))
     # look-ahead variants (effect-free statements after line ends)
-    vprogs = [(i, gen_ink.lookahead_variant(ast, ctx.rng, "noop")) for i, ast in progs if i in ok]
+    # (shuffles and RANDOM are seeded from the position of the sequence in the content tree, which the
+    # inserted statements shift: only programs without them are expected to play identically)
+    def deterministic(ast):
+        f = gen_ink.features(ast)
+        return not any(k in f for k in ("seq.shuffle", "seqblock.shuffle", "expr.random", "expr.seed_random"))
+    vprogs = [(i, gen_ink.lookahead_variant(ast, ctx.rng, "noop")) for i, ast in progs if i in ok and deterministic(ast)]
     vres = vlib.run_inkdrive(play_cases(vprogs, depth, budget), exe=exe)
     b = {i: r for (i, _), r in zip(progs, base)}
     for (i, vast), r1 in zip(vprogs, vres):
@@ -391,7 +396,8 @@ def run(ctx):
         small = shrink_refsem(ast, exe_play, depth_b, budget_b, cls) if len(seen_cls) <= 3 else ast
         d = refsem_compare([(0, small)], exe_play, depth_b, budget_b, name="c01shr")[0][1]
         ref_fail.append(dict(kind="refsem", cls=cls, ink=gen_ink.print_program(small), ast=small, difference=d))
-    probes_found = run_probes(ctx, exe_play)
+    probes_pending = collect_probes(exe_play)
+    probes_found = [k for k, _, _ in probes_pending]
 
     # ---- (c) exactly once, on the implementation
     nc = 120 if quick else 1500
@@ -433,6 +439,8 @@ def run(ctx):
     for f in ref_fail[:4]:
         ctx.violation("refsem-%s: implementation and reference semantics disagree: %s\n%s" % (
             f["cls"], json.dumps(f["difference"], ensure_ascii=False)[:300], f["ink"][:600]), f, key="c01-refsem-" + f["cls"])
+    for key, msg, payload in probes_pending:
+        ctx.violation(msg, payload, key=key)
     if not pr["ok"]:
         ctx.violation("theorem no longer checks: " + pr["failed"][:400],
                       dict(theorem_file="theories/Props/C01_spec.v", error=pr["failed"]), no_input=True)
